@@ -21,7 +21,10 @@ RULE = ("scripted: for max_k in 1..4 (KNN) / every 1 <= min_k <= max_k <= 4 (uns
         "criterion recorded; oracle: KNN best_k = smallest argmax over 1..max_k, all candidates "
         "evaluated once in order; unsupervised best_k = smallest argmin over the evaluated "
         "prefix, evaluation may only stop early right after an exact 0; the recorded final "
-        "create_arcs / calculate_pdf / clustering calls use best_k. Non-trivial = the criterion "
+        "create_arcs / calculate_pdf / clustering calls use best_k; for the natural KNN criterion every "
+        "candidate's validation accuracy is recomputed independently on a fresh subgraph (also with the very "
+        "same arrays passed as training and validation set); unsupervised ranges up to k = 9 on ten samples. "
+        "Non-trivial = the criterion "
         "sequence has a tie for the best value or the best is not the first candidate")
 ASSUMPTIONS = [
     "criterion alphabets {0, 0.5, 0.5+3e-6, 1} / {0, 1e-21, 0.5, 1}; max_k <= 4",
